@@ -514,6 +514,21 @@ TYPES = ["INT", "INTEGER", "BIGINT", "SMALLINT", "TINYINT", "FLOAT", "DOUBLE", "
          "DECIMAL(38, 0)", "CHARACTER VARYING(10)", "NATIONAL CHAR(3)", "my_type", "sch.my_type", "NUMERIC(10, 2)[]", "ARRAY<ARRAY<INT>>", "DATE NOT NULL"]
 
 
+def quote_mix_statements(tier):
+    """every text over {', ", \\, a} up to a length, written once with single quotes (' doubled) and once with double quotes
+    (" doubled): the generated literal (always the dialect's own quoting and escaping) must lex back to the same text
+    whatever mixture of quote characters and backslashes it holds"""
+    import itertools
+
+    out = []
+    for n in range(1, 4 if tier == "quick" else 5):
+        for tup in itertools.product("'\"\\a", repeat=n):
+            t = "".join(tup)
+            out.append("SELECT '" + t.replace("'", "''") + "'")
+            out.append('SELECT "' + t.replace('"', '""') + '"')
+    return out
+
+
 def literal_sequence_statements():
     """two literals of (possibly) different kinds in ONE statement: what the generator prints for the second must not
     depend on the first (shared escape tables, memoised escapes, ...)."""
@@ -759,6 +774,7 @@ def families(tier):
         add("literal-sequences", ((s, d) for g, s in enumerate(lseq) for d in [""] + others[g % 2::2]))
     else:
         add("literal-sequences", ((s, d) for s in lseq for d in ds))
+    add("quote-mix", ((s, d) for s in quote_mix_statements(tier) for d in ds))
     lctx = literal_context_statements()
     stats["literal-contexts"] = len(lctx) * len(ds)
     items.extend((f"literal-contexts|{lit}", s, d) for lit, s in lctx for d in ds)
